@@ -1,9 +1,12 @@
 ------------------------------- MODULE Gen_C18 -------------------------------
 (* Generator of C18 cases: a state is a Go type (spec/GoTypes.tla) with a generator       *)
-(* option set.  Init picks a base (a basic kind or a declared struct type of the harness), *)
+(* option set and a history (ghist: has the Generator generated another type before, and   *)
+(* does the judged call get the same component map).  Init picks a base (a basic kind or a declared struct type of the harness), *)
 (* Next wraps the type: pointer, slice, map, or one of the struct forms (tagged / omitempty *)
 (* / untagged field, a second field, pointer and value of the same type side by side,      *)
-(* embedded struct by value / by pointer / with a tag, shadowed and duplicated names).      *)
+(* embedded struct by value / by pointer / with a tag, shadowed and duplicated names, the    *)
+(* "string" tag option on the type and on a pointer to it, a defined non-struct type        *)
+(* embedded).                                                                               *)
 (* BFS to W wraps for the bases in Deep (full wrapper set at levels 1 and 2, the core set   *)
 (* above) and to WS wraps for the others (full set at level 1, core set above).  Every      *)
 (* state whose option set applies is written once to cases.ndjson with the covering value   *)
@@ -14,17 +17,23 @@ CONSTANTS W, WS, Deep, OptSet,
           Reps,        \* generations with fresh generators for the types of RepNames up to RepW wraps
           RepW,
           Which,       \* "all", or a split of the bases: "deep" (the families with long case lines) / "rest"
-          MutualFull   \* the mutually recursive families get the full (TRUE) or the core wrapper set, one level
+          MutualFull   \* the mutually recursive families get the full (TRUE) or the core wrapper set, one level;
+                       \* the round-6 declared types the full (TRUE) or the middle set
 
-VARIABLES gty, gw, gbase, gopt      \* (distinctive names: a variable called like an operator parameter slows TLC down)
-vars == <<gty, gw, gbase, gopt>>
+VARIABLES gty, gw, gbase, gopt,     \* (distinctive names: a variable called like an operator parameter slows TLC down)
+          ghist                       \* history: "none" = a fresh generator; "shared" / "fresh" = the generator has
+                                      \* generated First before, and this call gets the same / a new component map
+vars == <<gty, gw, gbase, gopt, ghist>>
 
-NoWrap == {"ES"}      \* generation dies on it: not a base here, it is the witness case of that listed finding
+NoWrap == {"ES", "Tree"}      \* generation dies on them: not bases here, they are the witness cases of those listed findings
 AllBases == BaseKinds \cup (DefNames \ NoWrap)
 (* Some case lines of the DeepNames families exceed the 8 KB up to which concurrent CSVWrite     *)
 (* calls are atomic: the pipeline runs "rest" (all bases, many workers, writes the lines below     *)
 (* LongLine only) and "deep" (those families, one worker, writes the long lines only).             *)
-Bases == IF Which = "deep" THEN AllBases \cap DeepNames ELSE AllBases
+(* (the families recursing through a named container carry values unfolded to depth 4: long lines too) *)
+(* (thorough tier: the families recursing through an unnamed container reach such lengths under two wrappers) *)
+LongNames == DeepNames \cup ContRecNames \cup (IF MutualFull THEN {"RSS", "RSlice", "RPSlice", "RMap", "RMapV"} ELSE {})
+Bases == IF Which = "deep" THEN AllBases \cap LongNames ELSE AllBases
 LongLine == 5000      \* characters of JSON; the written line (a quoted TLA+ string) is up to about 1.5 times as long
 BaseType(b) == IF b \in DefNames THEN Named(b) ELSE B(b)
 I8 == B("int8")
@@ -34,7 +43,7 @@ Core(s) ==
    {Ptr(s), Map(s), Struct(<<Fld("A", "a", s)>>),
     Struct(<<Emb("E", Struct(<<Fld("A", "a", s)>>)), Fld("B", "b", I8)>>),
     Struct(<<Emb("E", Ptr(Struct(<<Fld("A", "a", s)>>))), Fld("B", "b", I8)>>)}
-   \cup (IF s = B("uint8") THEN {} ELSE {Slice(s)})      \* []uint8 is the kind "bytes"
+   \cup (IF U(s).k = "uint8" THEN {} ELSE {Slice(s)})    \* []uint8 is the kind "bytes" (a slice of a defined uint8 type too)
 
 Full(s) ==
    Core(s) \cup
@@ -48,26 +57,56 @@ Full(s) ==
     Struct(<<Emb("E", Struct(<<Fld("A", "a", s)>>)), Fld("A", "a", TStrG)>>),
     Struct(<<EmbTag("E", "e", Struct(<<Fld("A", "a", s)>>))>>),
     Struct(<<Emb("E", Struct(<<FldU("A", s)>>)), Fld("B", "b", I8)>>),
-    Struct(<<Emb("E", Struct(<<Fld("A", "a", s)>>)), Emb("F", Struct(<<Fld("A", "a", TStrG)>>))>>)}
+    Struct(<<Emb("E", Struct(<<Fld("A", "a", s)>>)), Emb("F", Struct(<<Fld("A", "a", TStrG)>>))>>),
+    (* the "string" tag option: on the type itself, and on a pointer to it next to an omitempty one *)
+    Struct(<<FldS("A", "a", s)>>),
+    Struct(<<FldS("A", "a", Ptr(s)), FldSOE("B", "b", s)>>)}
+   (* a defined non-struct type embedded: encoding/json writes it under its type name *)
+   (* (reflect.StructOf cannot embed a map type: that form is the declared type EM) *)
+   \cup (IF s.k = "named" /\ U(s).k \in BaseKinds \cup {"slice"}
+         THEN {Struct(<<Emb(s.n, s), Fld("B", "b", I8)>>)} ELSE {})
    \cup (IF IsStructLike(s)
          THEN {Struct(<<Emb("E", s), Fld("B", "b", I8)>>), Struct(<<Emb("E", Ptr(s)), Fld("B", "b", I8)>>)}
          ELSE {})
+
+(* The declared types of round 6 (defined non-struct types, structs with invisible fields, the  *)
+(* families recursing through a named container) get a middle wrapper set in the quick tier:    *)
+(* the core set, omitempty, the "string" option, value next to pointer, embedding.              *)
+LightNames == NonStructNames \cup HiddenNames \cup ContRecNames
+Mid(s) ==
+   Core(s) \cup
+   {Struct(<<FldOE("A", "a", s)>>),
+    Struct(<<Fld("A", "a", s), Fld("B", "b", Ptr(s))>>),
+    Struct(<<FldS("A", "a", s)>>),
+    Struct(<<FldS("A", "a", Ptr(s)), FldSOE("B", "b", s)>>)}
+   \cup (IF IsStructLike(s)
+         THEN {Struct(<<Emb("E", s), Fld("B", "b", I8)>>), Struct(<<Emb("E", Ptr(s)), Fld("B", "b", I8)>>)}
+         ELSE {})
+   \cup (IF s.k = "named" /\ U(s).k \in BaseKinds \cup {"slice"}
+         THEN {Struct(<<Emb(s.n, s), Fld("B", "b", I8)>>)} ELSE {})
 
 (* The mutually recursive families of GoTypes!DeepNames carry deep values (a cycle of length 3 is *)
 (* passed twice): they are wrapped once only.  What the generator puts into the component map    *)
 (* for mutually recursive types depends on map iteration order inside it, so these types (and    *)
 (* MA/MB) are generated Reps times with fresh generators and every run is judged.                *)
 RepNames == DeepNames \cup {"MA", "MB"}
-WrapSet(s) == IF gbase \in DeepNames THEN (IF MutualFull THEN Full(s) ELSE Core(s))
+(* the same type twice in one struct (no cycle): for the option sets "throw" and "custom" *)
+Twice(s) == {Struct(<<Fld("A", "a", s), Fld("B", "b", Ptr(s))>>), Struct(<<Fld("A", "a", Ptr(s)), Fld("B", "b", s)>>)}
+            \cup (IF U(s).k = "uint8" THEN {} ELSE {Struct(<<Fld("A", "a", s), Fld("B", "b", Slice(s))>>)})
+WrapSet0(s) == IF gbase \in DeepNames THEN (IF MutualFull THEN Full(s) ELSE Core(s))
+              ELSE IF gbase \in LightNames /\ ~MutualFull /\ gbase \notin Deep THEN (IF gw = 0 THEN Mid(s) ELSE Core(s))
               ELSE IF gw = 0 \/ (gw = 1 /\ gbase \in Deep) THEN Full(s) ELSE Core(s)
+WrapSet(s) == (IF gopt \in {"throw", "custom"} /\ gw = 0 THEN Twice(s) ELSE {}) \cup WrapSet0(s)
 MaxW == IF gbase \in DeepNames THEN 1 ELSE IF gbase \in Deep THEN W ELSE WS
 RepsOf == IF gbase \in RepNames /\ gw <= RepW THEN Reps ELSE 1
 
+HistOpts == IF MutualFull THEN {"default", "useall", "export", "exporttop", "custom"} ELSE {"default", "export"}
 Init == /\ gbase \in Bases /\ gty = BaseType(gbase) /\ gw = 0 /\ gopt \in OptSet
+        /\ ghist \in (IF gopt \in HistOpts /\ gbase \in DefNames THEN {"none", "shared", "fresh"} ELSE {"none"})
 
 Next == /\ gw < MaxW
         /\ gty' \in WrapSet(gty) /\ gw' = gw + 1
-        /\ UNCHANGED <<gbase, gopt>>
+        /\ UNCHANGED <<gbase, gopt, ghist>>
 Spec == Init /\ [][Next]_vars
 
 RECURSIVE StripPtr(_)
@@ -82,19 +121,46 @@ StripPtr(t) == IF t.k = "ptr" THEN StripPtr(t.e) ELSE t
 (* combined with component export without / with ExportTopLevelSchema.  Names only matter for        *)
 (* declared types, so these sets are enumerated over the types that reach one (the recursive         *)
 (* families and non-recursive nested declared structs).                                              *)
+(* "throw" is ThrowErrorOnCycle, "custom" a SchemaCustomizer that changes nothing (it switches  *)
+(* the generator's type table off).  Cycle detection and the type table only matter where a     *)
+(* declared type occurs; in the quick tier these two are enumerated over a declared base, its   *)
+(* core wrappers and the forms that hold the same type twice (no cycle there).                  *)
 Plain(o) == CASE o = "tng" -> "default" [] o = "tng_export" -> "export" [] o = "tng_exporttop" -> "exporttop"
+              [] o \in {"throw", "custom"} -> "default"
               [] OTHER -> o
+(* Histories: the generator keeps its type table and its registered component names between    *)
+(* calls (the property's anchor state), so a type is also generated by a Generator that has      *)
+(* generated another type before: the base before one of its wrappers (the wrapper then finds    *)
+(* the base in the table), or the same type twice.  Where a declared type occurs only.           *)
+First == IF gw = 0 THEN gty ELSE BaseType(gbase)
+Hist4(s) == {Ptr(s), Map(s), Struct(<<Fld("A", "a", s)>>)} \cup (IF U(s).k = "uint8" THEN {} ELSE {Slice(s)})
+HistOK ==
+   ghist # "none" =>
+      /\ ReachNames(gty) # {} /\ gw <= 1
+      /\ gopt \in HistOpts
+      /\ gw = 1 => gty \in Hist4(BaseType(gbase))
+      /\ gbase \in DeepNames => gw = 0
 OptOK ==
-   /\ gopt \in {"tng", "tng_export", "tng_exporttop"} => ReachNames(gty) # {}
+   /\ HistOK
+   /\ gopt \in {"tng", "tng_export", "tng_exporttop"} =>
+         /\ ReachNames(gty) # {}
+         (* quick tier: the round-6 declared types meet the type-name generator in their core wrappers *)
+         /\ MutualFull \/ gbase \notin LightNames \/ gw = 0 \/ gty \in Core(BaseType(gbase))
+   /\ (gopt = "custom" /\ gbase \in DeepNames) => MutualFull        \* (long case lines: thorough tier)
+   /\ gopt \in {"throw", "custom"} =>
+         /\ ReachNames(gty) # {}
+         /\ (MutualFull /\ gw <= 2) \/ gw = 0 \/ (gw = 1 /\ gty \in Core(BaseType(gbase)) \cup Twice(BaseType(gbase)))
    /\ CASE Plain(gopt) \in {"default", "useall"} -> TRUE
         [] Plain(gopt) \in {"export", "useall_export"} -> AnonStructs(gty, TRUE) = 0
         [] Plain(gopt) = "exporttop" -> AnonStructs(gty, TRUE) = 0 /\ StripPtr(gty).k # "struct"
 
 Emit == OptOK =>
-          LET text == ToJson([T |-> gty, opt |-> gopt, vals |-> GoVals(gty), reps |-> RepsOf]) IN
-          LET long == gbase \in DeepNames /\ Len(text) > LongLine IN
+          LET text == ToJson(IF ghist = "none" THEN [T |-> gty, opt |-> gopt, vals |-> GoVals(gty), reps |-> RepsOf]
+                             ELSE [T |-> gty, opt |-> gopt, vals |-> GoVals(gty), reps |-> RepsOf,
+                                   first |-> First, share |-> (ghist = "shared")]) IN
+          LET long == gbase \in LongNames /\ Len(text) > LongLine IN
           (Which = "all" \/ ((Which = "deep") = long)) => CSVWrite("%1$s", <<text>>, "cases.ndjson")
 
-EmitPoints == (gw = 0 /\ gbase = "bool" /\ gopt = "default") =>
+EmitPoints == (gw = 0 /\ gbase = "bool" /\ gopt = "default" /\ ghist = "none") =>
                  CSVWrite("%1$s", <<ToJson([points |-> Points, zero |-> ZeroIdx, halves |-> Halves])>>, "points.ndjson")
 =============================================================================
